@@ -50,4 +50,9 @@ BOUNDED = [
 FIXED = [
     "fixed: property=C03 8a24aa2 negative union branch / enum index decoded through a negative subscript "
     "(schemaless_reader(b'\\x01', enum[A,B,C]) returned 'C')",
+    "fixed: property=C17 7e18589 json_reader consumed array/map/record field defaults of the schema in place "
+    "(second read of a document omitting the field returned an empty value; the caller's schema dict was modified); "
+    "also violates C15 (absent fields take their defaults) and C18",
+    "fixed: property=C18 6c01e0c read_decimal set the precision on a module-level decimal Context and then used it "
+    "(schedule: A sets prec=9, B reads a precision-2 decimal, A resumes and returns 1.2E+6 for 1234567.89)",
 ]
